@@ -332,12 +332,16 @@ pub fn install_panic_hook() {
             .cloned()
             .or_else(|| info.payload().downcast_ref::<&str>().map(|s| s.to_string()))
             .unwrap_or_default();
+        if let Ok(mut g) = LAST_PANIC_ANY_THREAD.lock() {
+            *g = (loc.clone(), msg.clone());
+        }
         LAST_PANIC.with(|p| *p.borrow_mut() = (loc, msg));
     }));
 }
 pub fn clear_panic() {
     LAST_PANIC.with(|p| *p.borrow_mut() = (String::new(), String::new()));
 }
+pub static LAST_PANIC_ANY_THREAD: std::sync::Mutex<(String, String)> = std::sync::Mutex::new((String::new(), String::new()));
 pub fn last_panic() -> (String, String) {
     LAST_PANIC.with(|p| p.borrow().clone())
 }
